@@ -273,6 +273,17 @@ class C20(Property):
                     tags.append(("coords", dict(offset=o, sampling=s, n=n), ["ok", fl(LinearAxis(sampling=s, offset=o).coordinates(n))], False))
                 except Exception as e:  # noqa
                     tags.append(("coords", dict(offset=o, sampling=s, n=n), ["err", err_kind(e)], False))
+            from abtem.scan import CustomScan
+            for _ in range(ctx.n(60, 600)):
+                pts = [[dyadic(rng, -8, 8, 3), dyadic(rng, -8, 8, 3)] for _ in range(rng.choice([0, 1, 1, 2, 3, 5]))]
+                lines.append("custom " + (",".join(f"{rat_s(x)}:{rat_s(y)}" for x, y in pts) or "_"))
+                try:
+                    cs = CustomScan(np.array(pts, float).reshape(-1, 2)) if len(pts) != 1 or rng.random() < 0.5 else CustomScan(tuple(pts[0]))
+                    axes = cs.ensemble_axes_metadata
+                    tags.append(("custom", dict(points=pts), ["ok", len(cs.get_positions()), list(cs.shape), np.asarray(cs.get_positions()).tolist(),
+                                                              None if not axes else [list(v) for v in axes[0].values]], False))
+                except Exception as e:  # noqa
+                    tags.append(("custom", dict(points=pts), ["err", err_kind(e)], False))
         for bad in ["ginit 0,0 1,1 s:4 none", "line 0,0 3,4 5 4 none X ~", "coords 0 1", "gpos 0,0 1 s:2 none F,F"]:
             lines.append(bad)
             tags.append(("bad", bad, "bad-op", False))
@@ -326,11 +337,17 @@ class C20(Property):
                         ok = ok and not t[5].startswith("err") and close_seq(rats(t[5]), impl[5])
             elif kind == "coords":
                 ok = close_seq(rats(t[1]), impl[1])
+            elif kind == "custom":
+                pp = lambda z: None if z == "none" else [] if z == "_" else [[Fraction(v) for v in q.split(":")] for q in z.split(",")]
+                mp, ma = pp(t[3]), pp(t[4])
+                ok = (int(t[1]) == impl[1] and ([] if t[2] == "_" else [int(x) for x in t[2].split(",")]) == impl[2]
+                      and len(mp) == len(impl[3]) and all(close_seq(a, b) for a, b in zip(mp, impl[3]))
+                      and (ma is None) == (impl[4] is None) and (ma is None or all(close_seq(a, b) for a, b in zip(ma, impl[4]))))
             if not ok and boundary:
                 ctx.boundary += 1
                 continue
             ctx.agree({"ginit": "GridScan.__init__ (grid)", "gpos": "GridScan.get_positions", "gaxes": "GridScan.ensemble_axes_metadata + coordinates",
-                       "line": "LineScan (init, setters, get_positions, axis)", "coords": "LinearAxis.coordinates",
+                       "line": "LineScan (init, setters, get_positions, axis)", "coords": "LinearAxis.coordinates", "custom": "CustomScan",
                        "bad": "malformed request rejected"}[kind], c, out[:600], impl, ok=ok)
         ctx.traces += len(tags)
 
